@@ -1083,8 +1083,12 @@ RUST_FLAT = {"i32": "u32", "i64": "u64", "f32": "f32", "f64": "f64"}
 
 
 def make_module(dump, opt, modname, gen_src, oracle, resources=False):
-    """-> (rust source of the module file, [FuncMeta], notes) ; raises Unsupported"""
+    """-> (rust source of the module file, [FuncMeta], notes) ; raises Unsupported.
+    With opt.asyncmode == "all" every import and export is bound async (C08): exported trait functions are `async fn`s
+    that may suspend on `rt_async::pause()`, export entries are the `[async-lift]` symbols (+ `[callback]`), imports are
+    awaited under `wit_bindgen::block_on`."""
     prefix = modname + "_"
+    isasync = opt.asyncmode == "all"
     cg = Cg(dump, opt, prefix, resources)
     notes = []
     funcs = []
@@ -1112,6 +1116,7 @@ def make_module(dump, opt, modname, gen_src, oracle, resources=False):
     # ---- exported traits
     by_trait = {}
     for fm in funcs:
+        fm.isasync = isasync
         if fm.dir == "export":
             by_trait.setdefault(tuple(fm.f["path"]), []).append(fm)
     for path, fms in by_trait.items():
@@ -1121,20 +1126,25 @@ def make_module(dump, opt, modname, gen_src, oracle, resources=False):
             ps = ", ".join("p%d: %s" % (i, cg.owned(t)) for i, t in enumerate(fm.params))
             ret = " -> %s" % cg.owned(fm.result, "'static") if fm.result else ""
             body = ["marker(rt::M_IMPL_ENTER);"]
+            if isasync:
+                body.append("let npause = S::next();")
             for i, t in enumerate(fm.params):
                 body.append(cg.walk("&p%d" % i, t))
             body.append("marker(rt::M_IMPL_WALKED);")
+            if isasync:
+                body.append("for _ in 0..npause { crate::rt_async::pause().await; }")
             if fm.result:
                 body.append("let r: %s = %s;" % (cg.owned(fm.result, "'static"), cg.build(fm.result)))
                 body.append("marker(rt::M_IMPL_BUILT); r")
             else:
                 body.append("marker(rt::M_IMPL_BUILT);")
-            o.append("  fn %s(%s)%s { %s }\n" % (fm.f["rust"], ps, ret, "\n    ".join(body)))
+            o.append("  %sfn %s(%s)%s { %s }\n" % ("async " if isasync else "", fm.f["rust"], ps, ret, "\n    ".join(body)))
         o.append("}\n")
     if by_trait:
         o.append("bindings::export!(G with_types_in bindings);\n")
     # ---- export symbols and dispatch
-    decls, arms, parms = [], [], []
+    decls, arms, parms, cbarms = [], [], [], []
+    cv = {"i32": "a[%d] as u32", "i64": "a[%d]", "f32": "f32::from_bits(a[%d] as u32)", "f64": "f64::from_bits(a[%d])"}
     for fm in funcs:
         if fm.dir != "export":
             continue
@@ -1142,8 +1152,23 @@ def make_module(dump, opt, modname, gen_src, oracle, resources=False):
         fm.params_indirect = len(pf) > 16
         cf = ["i64"] if fm.params_indirect else pf
         rf = oracle.layout(fm.result)[2] if fm.result else []
-        fm.result_indirect = len(rf) > 1
         fm.param_flat, fm.result_flat = pf, rf
+        if isasync:
+            # results leave through task.return: flat up to 16 core values, else one pointer
+            fm.result_indirect = len(rf) > 16
+            fm.has_post = False
+            sym = "%s[async-lift]%s" % (prefix, fm.core_name)
+            cbsym = "%s[callback][async-lift]%s" % (prefix, fm.core_name)
+            for x in (sym, cbsym):
+                if ('export_name = "%s"' % x) not in gen_src:
+                    raise RuntimeError("export symbol %s not found in the generated code" % x)
+            fm.task_return = "[task-return]" + fm.name
+            decls.append('#[link_name = "%s"] fn exp_%d(%s) -> u32;' % (sym, fm.idx, ", ".join("a%d: %s" % (i, RUST_FLAT[c]) for i, c in enumerate(cf))))
+            decls.append('#[link_name = "%s"] fn cb_%d(e0: u32, e1: u32, e2: u32) -> u32;' % (cbsym, fm.idx))
+            arms.append("%d => exp_%d(%s) as u64," % (fm.idx, fm.idx, ", ".join(cv[c] % i for i, c in enumerate(cf))))
+            cbarms.append("%d => cb_%d(e0, e1, e2)," % (fm.idx, fm.idx))
+            continue
+        fm.result_indirect = len(rf) > 1
         rty = "u64" if fm.result_indirect else (RUST_FLAT[rf[0]] if rf else None)
         sym = prefix + fm.core_name
         fm.has_post = ('export_name = "%scabi_post_%s"' % (prefix, fm.core_name)) in gen_src
@@ -1154,7 +1179,6 @@ def make_module(dump, opt, modname, gen_src, oracle, resources=False):
         if fm.has_post:
             decls.append('#[link_name = "%scabi_post_%s"] fn post_%d(a: u64);' % (prefix, fm.core_name, fm.idx))
             parms.append("%d => post_%d(w)," % (fm.idx, fm.idx))
-        cv = {"i32": "a[%d] as u32", "i64": "a[%d]", "f32": "f32::from_bits(a[%d] as u32)", "f64": "f64::from_bits(a[%d])"}
         call = "exp_%d(%s)" % (fm.idx, ", ".join(cv[c] % i for i, c in enumerate(cf)))
         if rty is None:
             arms.append("%d => { %s; 0 }" % (fm.idx, call))
@@ -1163,7 +1187,12 @@ def make_module(dump, opt, modname, gen_src, oracle, resources=False):
         else:
             arms.append("%d => %s as u64," % (fm.idx, call))
     o.append('extern "C" {\n  %s\n}\n' % "\n  ".join(decls))
-    o.append("pub fn export(k: usize, a: &[u64]) -> u64 { unsafe { match k { %s _ => { rt::note(\"no-such-export\"); 0 } } } }\n" % " ".join(arms))
+    if isasync:
+        o.append("pub fn export(k: usize, a: &[u64]) -> u64 { rt::note(\"sync-call-of-async-export\"); 0 }\n")
+        o.append("pub fn aexport(k: usize, a: &[u64]) -> u64 { unsafe { match k { %s _ => { rt::note(\"no-such-export\"); 0 } } } }\n" % " ".join(arms))
+        o.append("pub fn callback(k: usize, e0: u32, e1: u32, e2: u32) -> u32 { unsafe { match k { %s _ => 0 } } }\n" % " ".join(cbarms))
+    else:
+        o.append("pub fn export(k: usize, a: &[u64]) -> u64 { unsafe { match k { %s _ => { rt::note(\"no-such-export\"); 0 } } } }\n" % " ".join(arms))
     o.append("pub fn post(k: usize, w: u64) { unsafe { match k { %s _ => {} } } }\n" % " ".join(parms))
     # ---- import callers
     iarms = []
@@ -1171,19 +1200,27 @@ def make_module(dump, opt, modname, gen_src, oracle, resources=False):
         if fm.dir != "import":
             continue
         pf = flat_of(oracle, fm.params)
-        fm.params_indirect = len(pf) > 16
         rf = oracle.layout(fm.result)[2] if fm.result else []
-        fm.result_indirect = len(rf) > 1
         fm.param_flat, fm.result_flat = pf, rf
         fm.wasm_module = fm.iface or "$root"
-        if not any(s[0] == fm.wasm_module and s[1] == fm.name for s in shims):
-            raise RuntimeError("import shim %s %s not found in the generated code" % (fm.wasm_module, fm.name))
+        if isasync:
+            fm.params_indirect = len(pf) > 4            # MAX_FLAT_ASYNC_PARAMS
+            fm.result_indirect = fm.result is not None  # async-lowered imports always return through memory
+            shim = "[async-lower]" + fm.name
+        else:
+            fm.params_indirect = len(pf) > 16
+            fm.result_indirect = len(rf) > 1
+            shim = fm.name
+        if not any(s_[0] == fm.wasm_module and s_[1] == shim for s_ in shims):
+            raise RuntimeError("import shim %s %s not found in the generated code" % (fm.wasm_module, shim))
         fn = "::".join(["bindings"] + fm.f["path"] + [fm.f["rust"]])
         body = []
         for i, t in enumerate(fm.params):
             body.append("let a%d = %s;" % (i, cg.build(t)))
         body.append("marker(rt::M_CALL_START);")
         call = "%s(%s)" % (fn, ", ".join("a%d" % i for i in range(len(fm.params))))
+        if isasync:
+            call = "wit_bindgen::block_on(async move { %s.await })" % call
         if fm.result:
             body.append("let r = %s;" % call)
             body.append("marker(rt::M_CALL_END);")
@@ -1195,7 +1232,7 @@ def make_module(dump, opt, modname, gen_src, oracle, resources=False):
         o.append("fn imp_%d() { %s }\n" % (fm.idx, "\n  ".join(body)))
         iarms.append("%d => imp_%d()," % (fm.idx, fm.idx))
     o.append("pub fn import(k: usize) { match k { %s _ => rt::note(\"no-such-import\") } }\n" % " ".join(iarms))
-    o.append("pub fn init() {}\n")
+    o.append("pub fn init() { %s }\n" % ("crate::rt_async::init();" if isasync else ""))
     return "".join(o), funcs, notes
 
 
@@ -1244,6 +1281,7 @@ class Workspace:
         h.update(tree_hash(os.path.join(os.path.realpath(vf.REPO), "crates", "guest-rust")).encode())
         if rtmock:
             h.update(tree_hash(os.path.join(vf.harness_dir(), "crates", "rtmock")).encode())
+            h.update(open(os.path.join(TEMPL, "rt_async.rs")).read().encode())
         h.update(("%s|%s|%s|%s" % (hook, rtmock, profile, ",".join(self.extra_features))).encode())
         for m in names:
             h.update(m.encode())
@@ -1270,15 +1308,20 @@ class Workspace:
             live = [m for m in ms if m not in self.excluded]
             dep = 'wit-bindgen = { path = "%s/crates/guest-rust", default-features = false, features = [%s] }\n' % (repo, ", ".join('"%s"' % f for f in feats))
             if self.rtmock:
-                dep += 'rtmock = { path = "%s/crates/rtmock" }\n' % vf.harness_dir()
+                dep += 'rtmock = { path = "%s/crates/rtmock" }\nfutures = { version = "0.3.30", default-features = false, features = ["alloc"] }\n' % vf.harness_dir()
             _write_if_different(os.path.join(self.dir, c, "Cargo.toml"),
                                 "[package]\nname = \"genrun_%s\"\nversion = \"0.0.0\"\nedition = \"2021\"\n[features]\nstd = []\n[dependencies]\n%s" % (c, dep))
             main = ["#![allow(warnings)]", "mod rt;", "#[global_allocator]", "static GLOBAL: rt::TrackAlloc = rt::TrackAlloc;"]
+            if self.rtmock:
+                main.append("mod rt_async;")
+                _write_if_different(os.path.join(self.dir, c, "src", "rt_async.rs"), open(os.path.join(TEMPL, "rt_async.rs")).read())
             for m in live:
                 main.append("mod %s;" % m)
             main.append("fn main() { rt::main_loop(&[")
             for m in live:
-                main.append("  rt::Module { name: \"%s\", export: %s::export, post: %s::post, import: %s::import, init: %s::init }," % (m, m, m, m, m))
+                isasync = "pub fn aexport(" in self.modules[m]
+                main.append("  rt::Module { name: \"%s\", export: %s::export, post: %s::post, import: %s::import, init: %s::init, aexport: %s, callback: %s }," % (
+                    m, m, m, m, m, (m + "::aexport") if isasync else "rt::no_aexport", (m + "::callback") if isasync else "rt::no_callback"))
             main.append("]); }")
             _write_if_different(os.path.join(self.dir, c, "src", "main.rs"), "\n".join(main) + "\n")
             _write_if_different(os.path.join(self.dir, c, "src", "rt.rs"), self.rt_src)
@@ -1749,6 +1792,213 @@ class Runner:
             obs["leaked"] = leaked
         return F, obs
 
+    # ---------------------------------------------------------------------------------- async (C08)
+    def aexport_call(self, mod, fm, args, ret, npause=0, cancel=False):
+        """async-lifted export: the host calls the `[async-lift]` entry, plays the event loop (resolving the guest's
+        `npause` pause subtasks, or cancelling at the first wait) and judges what arrived through task.return."""
+        o, g = self.o, self.g
+        F, obs = [], {}
+        live0 = self._live()
+        flat, writes, given = [], [], []
+        pt, pv = (tuple_ty(fm.params), ("r", list(args))) if fm.params else (None, None)
+        if fm.params:
+            if fm.params_indirect:
+                size, align, _ = o.layout(pt)
+                reqs = [(size, align)] + o.allocs(pt, pv, "mem")
+                addrs = g.alloc(reqs)
+                _, writes, _ = o.lower(pt, pv, "mem", addrs[0], addrs[1:])
+                flat = [addrs[0]]
+            else:
+                reqs = o.allocs(pt, pv, "flat")
+                addrs = g.alloc(reqs)
+                flat, writes, _ = o.lower(pt, pv, "flat", 65536, addrs)
+            given = [(a, s_, al) for a, (s_, al) in zip(addrs, reqs)]
+        script = [npause] + (encode(fm.result, ret) if fm.result else [])
+        trsize = o.layout(fm.result)[0] if (fm.result and fm.result_indirect) else 0
+        self.stats["export_calls"] += 1
+        self.live = None
+        if g.ask("APOLICY %d" % (9 if cancel else 0)) is None:
+            return [Finding("crash", "guest-died", "APOLICY: " + g.proc.last_err, "crash:export")], obs
+        resp = g.ask("AEXPORT %s %d %d %s %s %s" % (mod, fm.idx, trsize, ",".join(map(str, flat)), ",".join(map(str, script)), segs_str(writes)))
+        if resp is None or not resp.startswith("OK"):
+            F.append(Finding("crash", "guest-died", "async export call: %s" % (g.proc.last_err if resp is None else resp), "crash:async-export"))
+            return F, obs
+        r = Guest.fields(resp)
+        evs = parse_events(r.get("ev", ""))
+        obs["events"], obs["codes"] = evs, r.get("codes", "")
+        hlog = [t for t in r.get("hlog", "").split(",") if t]
+        obs["hlog"] = hlog
+        want_cancel = cancel and npause > 0
+        notes_ = r.get("notes", "")
+        if want_cancel:
+            notes_ = notes_.replace("script-not-consumed;", "")    # a cancelled task never builds its result
+        if notes_:
+            F.append(Finding("value", "notes", notes_, "notes:" + notes_.split(";")[0]))
+        for t in hlog:
+            if t.startswith("TRAP"):
+                F.append(Finding("value", "async-host-trap", "the async host trapped the guest: %s (host log %s)" % (t, hlog[-12:]), "async-export:" + t.lower()))
+        words = [int(x) for x in r["log"].split(",")] if r.get("log") else []
+        if fm.params:
+            try:
+                got = decode(pt, words)
+                self._compare(F, "async-export-param", pt, pv, got, "the host sent %s, the async Rust implementation received %s")
+            except DecodeError as e:
+                F.append(Finding("value", "async-export-param", "observation log does not parse as the parameter types: %s (sent %s)" % (e, show(pv)), "async-export-param:" + e.klass))
+        trs = [x.split("|") for x in r.get("taskret", "").split(";") if x]
+        mine = [x for x in trs if x[0] == fm.task_return]
+        ncancel = hlog.count("taskcancel")
+        suspended = npause > 0
+        want_cancel = cancel and suspended
+        obs["task_returns"], obs["task_cancels"] = len(mine), ncancel
+        if want_cancel:
+            if len(mine) != 0 or ncancel != 1:
+                F.append(Finding("value", "async-completion", "a cancelled export task must yield exactly one [task-cancel] and no [task-return]: saw %d task.return, %d task.cancel (codes %s)" % (
+                    len(mine), ncancel, r.get("codes")), "async-export:completion:cancelled:%d:%d" % (len(mine), ncancel)))
+        else:
+            if len(mine) != 1 or ncancel != 0 or len(trs) != len(mine):
+                F.append(Finding("value", "async-completion", "a completed export task must yield exactly one [task-return] and no [task-cancel]: saw %d task.return (%d in total), %d task.cancel (codes %s)" % (
+                    len(mine), len(trs), ncancel, r.get("codes")), "async-export:completion:%d:%d" % (len(mine), ncancel)))
+        if not r.get("codes", "").endswith("0"):
+            F.append(Finding("value", "async-completion", "the task never exited: status codes %s" % r.get("codes"), "async-export:no-exit"))
+        want_allocs = []
+        if len(mine) == 1 and not want_cancel:
+            tw = [int(x) for x in mine[0][1].split(",")] if mine[0][1] else []
+            if fm.result:
+                self.stats["leaves_received"] += count_leaves(ret)
+                nflat = 1 if fm.result_indirect else len(fm.result_flat)
+                if len(tw) != nflat:
+                    F.append(Finding("value", "async-export-result", "task.return got %d core values, expected %d" % (len(tw), nflat), "async-export-result:arity"))
+                else:
+                    mode, src = ("mem", tw[0]) if fm.result_indirect else ("flat", " ".join(map(str, tw)))
+                    ans = o.ask_many([("lift", PW, sx(fm.result), mode, src, r.get("segs", "")), ("allocs", PW, sx(fm.result), show(ret), "mem" if fm.result_indirect else "flat")])
+                    got = Oracle.r_lift(ans[0])
+                    want_allocs = Oracle.r_allocs(ans[1])
+                    self._compare(F, "async-export-result", fm.result, ret, got, "async Rust returned %s, the host received through task.return %s")
+            elif tw:
+                F.append(Finding("value", "async-export-result", "task.return got %d core values for a function without result" % len(tw), "async-export-result:arity"))
+        # -- allocation ledger: guest buffers alive when task.return is called
+        F += self._mem_findings(evs, "async export call")
+        allocd, at_return = {}, None
+        for e in evs:
+            if e[0] == "A":
+                allocd[e[1]] = (e[2], e[3])
+            elif e[0] == "F":
+                allocd.pop(e[1], None)
+            elif e[0] == "M" and e[1] == M_TASK_RETURN and at_return is None:
+                at_return = sorted(allocd.values())
+        obs["handed"], obs["predicted"] = at_return, sorted(want_allocs)
+        # NB no exact ledger here: what task.return sees is BORROWED from the Rust values the implementation returned (lists are
+        # passed by pointer to the Vec's own buffer, whose capacity may exceed its length), so block sizes are not prescribed;
+        # that the data is readable at that moment is covered by lifting from the snapshot of live blocks taken inside task.return
+        freed = set(e[1] for e in evs if e[0] == "F")
+        area = given[0][0] if (given and fm.params_indirect) else None
+        for (a, s_, al) in given:
+            if a not in freed:
+                what = "param-area" if a == area else "param-buffer"
+                F.append(Finding("memory", "host-buffer-not-taken", "%s %d:%d handed to the async export was not released by the end of the task" % (
+                    "the parameter area (parameters passed through memory)" if a == area else "parameter buffer", s_, al), "host-buffer-not-taken:async-export:" + what))
+        live1 = self._parse_live(r)
+        self.live = live1
+        if live1 != live0:
+            leaked = sorted(set(live1) - set(live0))
+            gone = sorted(set(live0) - set(live1))
+            kind = "leak" if leaked else "over-free"
+            gset = set(a for a, _, _ in given)
+            srcs = sorted(set(("param-area" if b[0] == area else "param-buffer") if b[0] in gset else "guest-allocation" for b in (leaked or gone)))
+            F.append(Finding("memory", kind, "after the async export task exited the guest heap differs: leaked %s, missing %s (pauses %d, cancel %s)" % (
+                [(s_, a) for _, s_, a in leaked], [(s_, a) for _, s_, a in gone], npause, cancel), "%s:async-export:%s" % (kind, ",".join(srcs))))
+        return F, obs
+
+    def aimport_call(self, mod, fm, args, ret, policy=0):
+        """async-lowered import awaited under block_on; policy 0 = the host answers RETURNED at once, 1 = STARTED then RETURNED
+        once the guest blocks, 2 = STARTING, then STARTED, then RETURNED"""
+        o, g = self.o, self.g
+        F, obs = [], {}
+        live0 = self._live()
+        given, writes = [], []
+        mode, payload = "none", "0"
+        if fm.result:
+            reqs = o.allocs(fm.result, ret, "mem")
+            addrs = g.alloc(reqs)
+            _, ws, _ = o.lower(fm.result, ret, "mem", 0, addrs)
+            mode, payload = "mem", ws[0][1]
+            writes = ws[1:]
+            given = [(a, s_, al) for a, (s_, al) in zip(addrs, reqs)]
+        script = []
+        for t, v in zip(fm.params, args):
+            encode(t, v, script)
+        pt, pv = (tuple_ty(fm.params), ("r", list(args))) if fm.params else (None, None)
+        ind = o.layout(pt)[0] if fm.params_indirect else 0
+        self.stats["import_calls"] += 1
+        self.live = None
+        if g.ask("APOLICY %d" % policy) is None:
+            return [Finding("crash", "guest-died", "APOLICY: " + g.proc.last_err, "crash:import")], obs
+        resp = g.ask("IMPORT %s %d %s %s %d %s %s %s %s" % (mod, fm.idx, fm.wasm_module.replace(" ", "\x1f"), fm.name.replace(" ", "\x1f"), ind, mode, payload,
+                                                          ",".join(map(str, script)), segs_str(writes)))
+        if resp is None or not resp.startswith("OK"):
+            F.append(Finding("crash", "guest-died", "async import call: %s" % (g.proc.last_err if resp is None else resp), "crash:async-import"))
+            return F, obs
+        r = Guest.fields(resp)
+        ra = r
+        hlog = [t for t in ra.get("hlog", "").split(",") if t]
+        obs["hlog"] = hlog
+        evs = parse_events(r.get("ev", ""))
+        obs["events"] = evs
+        if r.get("notes"):
+            F.append(Finding("value", "notes", r["notes"], "notes:" + r["notes"].split(";")[0]))
+        for t in hlog:
+            if t.startswith("TRAP"):
+                F.append(Finding("value", "async-host-trap", "the async host trapped the guest: %s (host log %s)" % (t, hlog[-12:]), "async-import:" + t.lower()))
+        calls = [c.split("|") for c in r.get("calls", "").split(";") if c]
+        shim = "[async-lower]" + fm.name
+        mine = [c for c in calls if c[0] == fm.wasm_module and c[1] == shim]
+        if len(mine) != 1:
+            F.append(Finding("value", "import-call-count", "the async import was called %d times" % len(mine), "async-import-call-count:%d" % len(mine)))
+        else:
+            words = [int(x) for x in mine[0][2].split(",")] if mine[0][2] else []
+            nexp = (1 if fm.params_indirect else len(fm.param_flat)) + (1 if fm.result else 0)
+            if len(words) != nexp:
+                F.append(Finding("value", "import-arity", "core call has %d arguments, expected %d" % (len(words), nexp), "async-import-arity"))
+            elif fm.params:
+                lm, src = ("mem", words[0]) if fm.params_indirect else ("flat", " ".join(str(w) for w in words[:len(fm.param_flat)]))
+                reqs = [("lift", PW, sx(pt), lm, src, r.get("segs", ""))]
+                if policy == 2:
+                    reqs.append(("lift", PW, sx(pt), lm, src, ra.get("snap2", "")))
+                ans = o.ask_many(reqs)
+                self._compare(F, "async-import-param", pt, pv, Oracle.r_lift(ans[0]), "async Rust passed %s, the host received %s")
+                if policy == 2:
+                    got2 = Oracle.r_lift(ans[1])
+                    if got2 is None or canon(pt, got2) != canon(pt, pv):
+                        d = diff_path(pt, canon(pt, pv), canon(pt, got2)) if got2 is not None else None
+                        F.append(Finding("memory", "params-not-kept-alive", "the lowered parameters are no longer intact when the callee starts (STARTING → STARTED): "
+                                         "sent %s, at start the host reads %s" % (show(pv), show(got2) if got2 is not None else "TRAP"),
+                                         "async-import:params-dead-at-start:" + (class_of_path(d) if d else "trap")))
+        nsd = len([t for t in hlog if t.startswith("stdrop:")])
+        if nsd != (1 if policy > 0 else 0):
+            F.append(Finding("value", "subtask-drop", "subtask handle dropped %d times (policy %d)" % (nsd, policy), "async-import:subtask-drop:%d" % nsd))
+        words = [int(x) for x in r["log"].split(",")] if r.get("log") else []
+        if fm.result:
+            try:
+                got = decode(fm.result, words)
+                self._compare(F, "async-import-result", fm.result, ret, got, "the host returned %s, async Rust received %s")
+            except DecodeError as e:
+                F.append(Finding("value", "async-import-result", "observation log does not parse as the result type: %s (sent %s)" % (e, show(ret)), "async-import-result:" + e.klass))
+        F += self._mem_findings(evs, "async import call")
+        freed = set(e[1] for e in evs if e[0] == "F")
+        for (a, s_, al) in given:
+            if a not in freed:
+                F.append(Finding("memory", "host-buffer-not-taken", "result buffer %d:%d handed to the async import wrapper was not released once the result was dropped" % (s_, al),
+                                 "host-buffer-not-taken:async-import-result"))
+        live1 = self._parse_live(r)
+        self.live = live1
+        if live1 != live0:
+            leaked = sorted(set(live1) - set(live0))
+            gone = sorted(set(live0) - set(live1))
+            kind = "leak" if leaked else "over-free"
+            F.append(Finding("memory", kind, "after the async import call and dropping its result the guest heap differs: leaked %s, missing %s (policy %d)" % (
+                [(s_, a) for _, s_, a in leaked], [(s_, a) for _, s_, a in gone], policy), "%s:async-import" % kind))
+        return F, obs
+
     def cleanup(self, baseline):
         """free whatever is still live beyond `baseline` (after a failed case) so later cases start clean"""
         try:
@@ -1763,6 +2013,7 @@ class Runner:
 
 M_CALL_START, M_HOST_ENTER, M_HOST_EXIT, M_CALL_END, M_WALK_END, M_DROP_END = 1, 2, 3, 4, 5, 6
 M_IMPL_ENTER, M_IMPL_WALKED, M_IMPL_BUILT, M_POST_START, M_POST_END, M_BUILD_START = 7, 8, 9, 10, 11, 12
+M_TASK_RETURN, M_STARTED = 13, 14
 
 
 # ------------------------------------------------------------------------------------------ WIT from type trees (minimised cases)
@@ -1861,12 +2112,13 @@ class Unit:
 
 
 class Case:
-    def __init__(self, unit, fm, args, ret, findings, obs=None):
-        self.unit, self.fm, self.args, self.ret, self.findings, self.obs = unit, fm, args, ret, findings, obs
+    def __init__(self, unit, fm, args, ret, findings, obs=None, how=None):
+        self.unit, self.fm, self.args, self.ret, self.findings, self.obs, self.how = unit, fm, args, ret, findings, obs, how or {}
 
     def replay_obj(self):
         return {"engine": "genrun-rust", "wit": self.unit.wit, "world": self.unit.world, "options": self.unit.opt.as_dict(),
-                "function": self.fm.key(), "args": [show(a) for a in self.args], "ret": show(self.ret) if self.ret is not None else None}
+                "function": self.fm.key(), "args": [show(a) for a in self.args], "ret": show(self.ret) if self.ret is not None else None,
+                "how": self.how}
 
 
 class Tools:
@@ -1948,7 +2200,7 @@ def calls_plan(unit, total):
     return {fm.idx: per for fm in fs}
 
 
-def run_units(tools, ws, units, total_calls, seed, wrap=None, env=None, max_fail_per_class=2, workers=None):
+def run_units(tools, ws, units, total_calls, seed, wrap=None, env=None, max_fail_per_class=2, workers=None, on_call=None):
     """Runs every live unit; -> (cases with findings, stats dict).  One guest process + one oracle process per crate,
     crates in parallel."""
     import concurrent.futures
@@ -1965,7 +2217,8 @@ def run_units(tools, ws, units, total_calls, seed, wrap=None, env=None, max_fail
         try:
             for u in by_crate[crate]:
                 R = Runner(o, g)
-                rng = vf.Rng(int(hashlib.sha256(("%d|%s" % (seed, u.modname)).encode()).hexdigest()[:15], 16))
+                rng = vf.Rng(int(hashlib.sha256(("%d|%s" % (seed, getattr(u, "rngkey", None) or u.modname)).encode()).hexdigest()[:15], 16))
+                isasync = u.opt.asyncmode == "all"
                 plan = calls_plan(u, total_calls)
                 stats["units"] += 1
                 seen_class = {}
@@ -1979,11 +2232,23 @@ def run_units(tools, ws, units, total_calls, seed, wrap=None, env=None, max_fail
                     for c in range(plan.get(fm.idx, 0)):
                         args = [gen_value(rng, t) for t in fm.params]
                         ret = gen_value(rng, fm.result) if fm.result else None
+                        how = {}
                         try:
-                            F, obs = (R.export_call if fm.dir == "export" else R.import_call)(u.modname, fm, args, ret)
+                            if not isasync:
+                                F, obs = (R.export_call if fm.dir == "export" else R.import_call)(u.modname, fm, args, ret)
+                            elif fm.dir == "export":
+                                how = {"pauses": c % 3, "cancel": c % 5 == 4}
+                                F, obs = R.aexport_call(u.modname, fm, args, ret, npause=how["pauses"], cancel=how["cancel"])
+                            else:
+                                how = {"policy": c % 3}
+                                F, obs = R.aimport_call(u.modname, fm, args, ret, policy=how["policy"])
                         except GuestDied as e:
                             F, obs = [Finding("crash", "guest-died", str(e), "crash:" + fm.dir)], {}
                         stats["calls"] += 1
+                        for hk, hv in how.items():
+                            stats["kinds"]["async-%s-%s" % (hk, hv)] = stats["kinds"].get("async-%s-%s" % (hk, hv), 0) + 1
+                        if on_call:
+                            on_call(u, fm, c, args, ret, F, obs, how)
                         if fm.params or fm.result:
                             stats["nontrivial"] += 1
                         if len(stats["samples"]) < 2 and (fm.params or fm.result) and not F:
@@ -1993,7 +2258,7 @@ def run_units(tools, ws, units, total_calls, seed, wrap=None, env=None, max_fail
                             ks = tuple(sorted(set(f.klass for f in F)))
                             seen_class[ks] = seen_class.get(ks, 0) + 1
                             if seen_class[ks] <= max_fail_per_class:
-                                failing.append(Case(u, fm, args, ret, F, obs))
+                                failing.append(Case(u, fm, args, ret, F, obs, how))
                             R.cleanup([])
                             if any(f.cat == "crash" for f in F):
                                 break
@@ -2077,7 +2342,7 @@ def optset_schedule(rng, nworlds, per_world):
 
 
 # ------------------------------------------------------------------------------------------ minimisation / replay
-def run_single(tools, wit, world, opt, fkey, calls, seed, fixed_case=None, resources=False, modname="m0o0", **kw):
+def run_single(tools, wit, world, opt, fkey, calls, seed, fixed_case=None, resources=False, modname="m0o0", how=None, **kw):
     """Build one (world, option set) and call function `fkey` (`dir:iface#name`) `calls` times with random values, or once
     with fixed_case = (args, ret).  -> (list of Case with findings, unit)"""
     units = prepare_units(tools, [(modname, wit, world, opt, "single")], resources=resources)
@@ -2101,7 +2366,12 @@ def run_single(tools, wit, world, opt, fkey, calls, seed, fixed_case=None, resou
             for fc in todo:
                 args, ret = fc if fc else ([gen_value(rng, t) for t in fm.params], gen_value(rng, fm.result) if fm.result else None)
                 try:
-                    F, obs = (R.export_call if fm.dir == "export" else R.import_call)(modname, fm, args, ret)
+                    if opt.asyncmode != "all":
+                        F, obs = (R.export_call if fm.dir == "export" else R.import_call)(modname, fm, args, ret)
+                    elif fm.dir == "export":
+                        F, obs = R.aexport_call(modname, fm, args, ret, npause=(how or {}).get("pauses", 1), cancel=(how or {}).get("cancel", False))
+                    else:
+                        F, obs = R.aimport_call(modname, fm, args, ret, policy=(how or {}).get("policy", 2))
                 except GuestDied as e:
                     F, obs = [Finding("crash", "guest-died", str(e), "crash:" + fm.dir)], {}
                 if F:
@@ -2113,7 +2383,7 @@ def run_single(tools, wit, world, opt, fkey, calls, seed, fixed_case=None, resou
     return out, u
 
 
-def minimize(tools, case, klass, seed, rounds=3, calls=24, log=None):
+def minimize(tools, case, klass, seed, rounds=3, calls=24, log=None, build_kw=None):
     """Shrink the failing case to a single-function world whose types are as small as we can make them while a finding of
     class `klass` still shows.  Every round builds all candidates as modules of one workspace (in parallel)."""
     fm, opt = case.fm, case.unit.opt
@@ -2180,7 +2450,7 @@ def minimize(tools, case, klass, seed, rounds=3, calls=24, log=None):
             specs.append(("m%dx%d" % (rnd, i), wit, world, opt, "shrink"))
             metas.append(c)
         units = prepare_units(tools, specs)
-        ws, ok, blog = build_units(units)
+        ws, ok, blog = build_units(units, **(build_kw or {}))
         if not ok:
             return []
         failing, _ = run_units(tools, ws, units, calls, seed, max_fail_per_class=1)
